@@ -374,7 +374,7 @@ func (d *decoder) parseFileIdMsg() error {
 		return fmt.Errorf("error parsing record header: %w", err)
 	}
 
-	if !((b & mesgHeaderMask) == mesgHeaderMask) {
+	if (b & (compressedHeaderMask | mesgDefinitionMask)) != mesgHeaderMask {
 		return fmt.Errorf("expected record header byte for data message, got %#x - %8b", b, b)
 	}
 	msg, err := d.parseDataMessage(b, false)
